@@ -19,6 +19,7 @@ type kvState struct {
 	overlay map[string]*string // nil = deleted marker
 	parent  map[string]string
 	size    int
+	closed  bool
 }
 
 func newKvState() *kvState {
@@ -34,6 +35,7 @@ func (s *kvState) clone() *kvState {
 		c.parent[k] = v
 	}
 	c.size = s.size
+	c.closed = s.closed
 	return c
 }
 
@@ -50,7 +52,7 @@ func (s *kvState) key() string {
 		ks = append(ks, "p"+k+"="+v)
 	}
 	sort.Strings(ks)
-	return strings.Join(ks, ",") + fmt.Sprintf("#%d", s.size)
+	return strings.Join(ks, ",") + fmt.Sprintf("#%d%v", s.size, s.closed)
 }
 
 func (s *kvState) put(k, v string) {
@@ -111,7 +113,27 @@ func (s *kvState) content() string {
 
 // operations shared by the single store and by the stores inside the pool
 func (s *kvState) apply(op []string) string {
+	if s.closed {
+		// after Close (flushable.go): the overlay tree is nil.  Reads and Flush / batch Write / Close report
+		// errClosed; the methods that dereference the tree panic; the size estimate was reset by Close
+		switch op[0] {
+		case "Get", "Has", "Flush", "Batch", "Close":
+			return "err"
+		case "Put", "Delete", "Pairs", "DropNotFlushed", "Snap":
+			return "panic"
+		case "SizeEst":
+			return "0"
+		}
+		return "ok"
+	}
 	switch op[0] {
+	case "Close":
+		s.overlay = map[string]*string{}
+		s.size = 0
+		s.closed = true
+		return "ok"
+	case "MidFlush":
+		return "ok"
 	case "Put":
 		s.put(op[1], op[2])
 		return "ok"
@@ -167,21 +189,52 @@ type storeLike interface {
 }
 
 type flushComp struct {
-	db   storeLike
-	lazy *flushable.LazyFlushable
-	ctr  [16]int
+	db      storeLike
+	lazy    *flushable.LazyFlushable
+	mids    []*flushable.Flushable // the wrapped layers below the store under test (depth 2, 3)
+	cfg     string
+	closing bool // variant: Close is one of the operations, the others are those that survive it
+	hand    chan handed
 }
 
-func newFlushable(lazy bool) *flushComp {
-	c := &flushComp{}
+// an iterator and a snapshot created by one goroutine and used / released by another
+type handed struct {
+	it   kvdb.Iterator
+	snap kvdb.Snapshot
+}
+
+// newFlushable: variants by seed — wrapping depth 1..3 (a Flushable over Flushables: the nested lock instances),
+// LazyFlushable initialised before the run or not, and a run in which the store is closed by one of the goroutines
+func newFlushable(lazy bool, seed int64) *flushComp {
+	c := &flushComp{hand: make(chan handed, 64)}
+	depth := 1 + int(seed%3)
+	var bottom kvdb.Store = memorydb.New()
+	for i := 1; i < depth; i++ {
+		m := flushable.Wrap(bottom)
+		c.mids = append(c.mids, m)
+		bottom = m
+	}
+	c.closing = (seed/3)%5 == 0
+	c.cfg = fmt.Sprintf("depth%d", depth)
 	if lazy {
-		c.lazy = flushable.NewLazy(func() (kvdb.Store, error) { return memorydb.New(), nil }, nil)
+		c.lazy = flushable.NewLazy(func() (kvdb.Store, error) { return bottom, nil }, nil)
 		c.db = c.lazy
+		if (seed/15)%2 == 0 {
+			c.lazy.InitUnderlyingDb()
+			c.cfg += "-inited"
+		} else {
+			c.cfg += "-uninit"
+		}
 	} else {
-		c.db = flushable.Wrap(memorydb.New())
+		c.db = flushable.Wrap(bottom)
+	}
+	if c.closing {
+		c.cfg += "-closing"
 	}
 	return c
 }
+
+func (c *flushComp) Cfg() string { return c.cfg }
 
 var kvKeys = []string{"a", "b", "c"}
 
@@ -227,6 +280,37 @@ func genKvOp(r *rand.Rand, t, i int, lin bool, lazy bool) []string {
 }
 
 func (c *flushComp) Gen(r *rand.Rand, t, i int, lin bool) []string {
+	if c.closing { // the store is closed by one of the goroutines; every operation is defined after Close
+		k := kvKeys[r.Intn(len(kvKeys))]
+		switch n := r.Intn(100); {
+		case n < 8:
+			return []string{"Close"}
+		case n < 25:
+			return []string{"Put", k, fmt.Sprintf("%x%02x", t+1, i)}
+		case n < 45:
+			return []string{"Get", k}
+		case n < 55:
+			return []string{"Has", k}
+		case n < 65:
+			return []string{"Flush"}
+		case n < 75:
+			return []string{"Pairs"}
+		case n < 85:
+			return []string{"SizeEst"}
+		case n < 92:
+			return []string{"Batch", k, fmt.Sprintf("%x%02xb", t+1, i)}
+		default:
+			if lin {
+				return []string{"DropNotFlushed"}
+			}
+			return []string{"Iterate"}
+		}
+	}
+	if n := r.Intn(100); n < 6 && len(c.mids) > 0 {
+		return []string{"MidFlush", itoa(r.Intn(len(c.mids)))} // flush of a lower layer: invisible from the top
+	} else if n < 12 && !lin {
+		return []string{pick(r, "HandOver", "Drain")}
+	}
 	return genKvOp(r, t, i, lin, c.lazy != nil)
 }
 
@@ -319,9 +403,37 @@ func execKvOp(db storeLike, op []string) string {
 }
 
 func (c *flushComp) Exec(t int, op []string) string {
-	if op[0] == "InitDb" {
+	switch op[0] {
+	case "InitDb":
 		_, err := c.lazy.InitUnderlyingDb()
 		return errs(err)
+	case "MidFlush":
+		return errs(c.mids[atoi(op[1])].Flush())
+	case "Close":
+		return errs(c.db.Close())
+	case "HandOver": // created here, used and released by whoever drains
+		snap, err := c.db.GetSnapshot()
+		if err != nil {
+			return "err"
+		}
+		select {
+		case c.hand <- handed{c.db.NewIterator(nil, nil), snap}:
+		default:
+			snap.Release()
+		}
+		return "ok"
+	case "Drain":
+		select {
+		case h := <-c.hand:
+			for h.it.Next() {
+				_ = h.it.Key()
+			}
+			h.it.Release()
+			h.snap.Get([]byte("a"))
+			h.snap.Release()
+		default:
+		}
+		return "ok"
 	}
 	return execKvOp(c.db, op)
 }
@@ -335,9 +447,22 @@ type poolComp struct {
 	pool    *flushable.SyncedPool
 	handles map[string]storeLike
 	under   map[string]kvdb.Store
+	names   []string // stores opened (with their underlying databases) before the run
 }
 
+func (c *poolComp) Cfg() string { return "stores:" + strings.Join(c.names, ".") }
+
 var poolNames = []string{"a", "b"}
+
+func poolStores(seed int64) []string {
+	switch seed % 3 {
+	case 0:
+		return []string{"a"}
+	case 1:
+		return []string{"a", "b"}
+	}
+	return []string{"a", "b", "e", "f", "g"}
+}
 
 // safeProducer: a DBProducer over memorydb stores with its own locking.  (memorydb.NewProducer is not used
 // here: its fakeFS drop callback deletes from a map without the fakeFS lock — a race outside the five
@@ -362,10 +487,10 @@ func (p *safeProducer) OpenDB(name string) (kvdb.Store, error) {
 	return db, nil
 }
 
-func newPool() *poolComp {
+func newPool(seed int64) *poolComp {
 	c := &poolComp{pool: flushable.NewSyncedPool(&safeProducer{dbs: map[string]kvdb.Store{}}, []byte("flag")),
-		handles: map[string]storeLike{}, under: map[string]kvdb.Store{}}
-	for _, n := range poolNames {
+		handles: map[string]storeLike{}, under: map[string]kvdb.Store{}, names: poolStores(seed)}
+	for _, n := range c.names {
 		db, err := c.pool.OpenDB(n)
 		if err != nil {
 			panic(err)
@@ -382,7 +507,7 @@ func newPool() *poolComp {
 
 func (c *poolComp) Gen(r *rand.Rand, t, i int, lin bool) []string {
 	n := r.Intn(100)
-	name := poolNames[r.Intn(len(poolNames))]
+	name := c.names[r.Intn(len(c.names))]
 	switch {
 	case n < 40:
 		op := genKvOp(r, t, i, true, false)
@@ -469,7 +594,7 @@ type poolModel struct {
 
 func (c *poolComp) Model() seqModel {
 	m := &poolModel{dbs: map[string]*kvState{}, marks: map[string]string{}}
-	for _, n := range poolNames {
+	for _, n := range c.names {
 		m.dbs[n] = newKvState()
 	}
 	return m
@@ -687,7 +812,12 @@ func (p *gateProducer) OpenDB(name string) (kvdb.Store, error) {
 // While the second one is being flushed, another goroutine writes x into the store that is ALREADY flushed and
 // then y into the store that is NOT YET flushed.  After the flush y is durable and x is not, although Put(x)
 // returned before Put(y) was called: no position of an atomic Flush explains both.
-func poolMid() {
+// With readers = true (POOLRD) nothing is written during the flush: every store got k before it, and while the
+// second store's flush is blocked another goroutine READS k from the underlying databases of the first and third
+// store (GetUnderlying stores, guarded by the pool's `flushing` lock).  A correct pool makes the readers wait for
+// the end of the flush; a pool whose Flush does not hold `flushing` exclusively lets them see one store flushed
+// and the other not.
+func poolMid(readers bool) {
 	g := &flushGate{entered: make(chan struct{}), gate: make(chan struct{})}
 	prod := &gateProducer{dbs: map[string]kvdb.Store{}, g: g}
 	c := &poolComp{pool: flushable.NewSyncedPool(prod, []byte("flag")), handles: map[string]storeLike{}, under: map[string]kvdb.Store{}}
@@ -704,6 +834,11 @@ func poolMid() {
 		b := tick()
 		return rec{t, a, b, op, res}
 	}
+	if readers {
+		for _, n := range []string{"a", "b", "c"} {
+			h = append(h, do(0, "H", n, "Put", "k", "v"+n))
+		}
+	}
 	g.armed = true
 	var flushRec rec
 	flushDone := make(chan struct{})
@@ -719,6 +854,30 @@ func poolMid() {
 			third = n
 		}
 	}
+	if readers {
+		var reads []rec
+		readsDone := make(chan struct{})
+		go func() {
+			reads = append(reads, do(0, "UGet", first, "k"))
+			reads = append(reads, do(0, "UGet", third, "k"))
+			close(readsDone)
+		}()
+		select {
+		case <-readsDone:
+		case <-time.After(300 * time.Millisecond):
+		}
+		close(g.gate)
+		<-flushDone
+		<-readsDone
+		h = append(h, flushRec)
+		h = append(h, reads...)
+		m := &poolModel{dbs: map[string]*kvState{}, marks: map[string]string{}}
+		for _, n := range []string{"a", "b", "c"} {
+			m.dbs[n] = newKvState()
+		}
+		report(h, m, "pool", " cfg=stores:a.b.c")
+		return
+	}
 	h = append(h, do(0, "H", first, "Put", "k", "x1"))
 	h = append(h, do(0, "H", third, "Put", "k", "y1"))
 	close(g.gate)
@@ -730,5 +889,5 @@ func poolMid() {
 	for _, n := range []string{"a", "b", "c"} {
 		m.dbs[n] = newKvState()
 	}
-	report(h, m, "pool", "")
+	report(h, m, "pool", " cfg=stores:a.b.c")
 }
